@@ -49,7 +49,15 @@ enum Op {
     /// thread t ends (its scopes unwind LIFO); a later op on t starts a fresh thread
     EndThread { t: u8 },
     /// thread t gets a thread-local value whose destructor emits an event when the thread ends
-    ArmExitEmit { t: u8 },
+    /// (`scope`: the destructor also opens and closes a scope of collector `c` around it)
+    ArmExitEmit {
+        t: u8,
+        #[serde(default)]
+        scope: Option<u8>,
+    },
+    /// a future that emits, wrapped with `with_collector(c)` (c given) or, created on thread t,
+    /// with `with_current_collector()`; polled once on thread `on`: the poll is a scope of its own
+    PollWith { t: u8, c: Option<u8>, on: u8 },
 }
 
 #[derive(Clone, Debug, Serialize, Deserialize)]
@@ -142,15 +150,38 @@ impl tracing_core::Collect for DropEmitter {
 }
 
 /// emits when the thread that owns it ends
-struct ExitEmitter;
+struct ExitEmitter(Option<Dispatch>);
 impl Drop for ExitEmitter {
     fn drop(&mut self) {
-        emit(0);
+        match self.0.take() {
+            Some(d) => {
+                let g = dispatch::set_default(&d);
+                emit(0);
+                drop(g);
+            }
+            None => emit(0),
+        }
     }
+}
+fn poll_once<F: std::future::Future>(f: F) {
+    use std::task::{Context, RawWaker, RawWakerVTable, Waker};
+    fn clone(_: *const ()) -> RawWaker {
+        RawWaker::new(std::ptr::null(), &VT)
+    }
+    fn noop(_: *const ()) {}
+    static VT: RawWakerVTable = RawWakerVTable::new(clone, noop, noop, noop);
+    let w = unsafe { Waker::from_raw(RawWaker::new(std::ptr::null(), &VT)) };
+    let mut cx = Context::from_waker(&w);
+    let mut f = Box::pin(f);
+    let _ = f.as_mut().poll(&mut cx);
 }
 thread_local! {
     static AT_EXIT: std::cell::RefCell<Option<ExitEmitter>> = const { std::cell::RefCell::new(None) };
 }
+
+/// the future is only moved between the stepped threads, never used by two at once
+struct SendFut(std::pin::Pin<Box<tracing::instrument::WithDispatch<std::pin::Pin<Box<dyn std::future::Future<Output = ()>>>>>>);
+unsafe impl Send for SendFut {}
 
 fn current_id() -> Option<u32> {
     dispatch::get_default(|d| d.downcast_ref::<RecCollector>().map(|r| r.0.id))
@@ -231,6 +262,7 @@ fn run_case(case: &Case) -> Outcome {
     let mut nontrivial = false;
     let mut global_attempts = 0;
     let mut armed = [false; NT];
+    let mut scoped_exit = [false; NT];
 
     macro_rules! fail {
         ($i:expr, $sig:expr, $($arg:tt)*) => {{
@@ -439,14 +471,69 @@ fn run_case(case: &Case) -> Outcome {
                     active_before_global[t] = true;
                 }
             }
-            Op::ArmExitEmit { t } => {
+            Op::ArmExitEmit { t, scope } => {
                 let t = t as usize % NT;
                 if !armed[t] {
-                    if let Err(e) = w.st.run(t, |_| AT_EXIT.with(|a| *a.borrow_mut() = Some(ExitEmitter))) {
+                    let d = match scope {
+                        Some(c) => match w.dispatch(t, c as usize % NC) {
+                            Ok(d) => Some(d),
+                            Err(e) => fail!(i, "panic: collector creation", "{e}"),
+                        },
+                        None => None,
+                    };
+                    scoped_exit[t] = d.is_some();
+                    if let Err(e) = w.st.run(t, move |_| AT_EXIT.with(|a| *a.borrow_mut() = Some(ExitEmitter(d)))) {
                         fail!(i, "panic: thread-local", "{e}");
                     }
                     armed[t] = true;
                 }
+            }
+            Op::PollWith { t, c, on } => {
+                use tracing::instrument::WithCollector;
+                let (t, on) = (t as usize % NT, on as usize % NT);
+                // the collector the future carries
+                let carried: Option<u8> = match c {
+                    Some(c) => Some((c as usize % NC) as u8),
+                    None => w.selected(t),
+                };
+                let want: Option<u8> = carried.filter(|c| *c != 4);
+                w.drain();
+                let r = match c {
+                    Some(c) => {
+                        let d = match w.dispatch(t, c as usize % NC) {
+                            Ok(d) => d,
+                            Err(e) => fail!(i, "panic: collector creation", "{e}"),
+                        };
+                        w.st.run(on, move |_| poll_once(async { emit(0) }.with_collector(d)))
+                    }
+                    None => {
+                        // created on t (captures t's current default), polled on `on`
+                        let fut = match w.st.run(t, |_| {
+                            let inner: std::pin::Pin<Box<dyn std::future::Future<Output = ()>>> = Box::pin(async { emit(0) });
+                            SendFut(Box::pin(inner.with_current_collector()))
+                        }) {
+                            Ok(f) => f,
+                            Err(e) => fail!(i, "panic: with_current_collector", "{e}"),
+                        };
+                        w.st.run(on, move |_| {
+                            let fut = fut; // (moved as a whole: the wrapper is what is Send)
+                            poll_once(fut.0)
+                        })
+                    }
+                };
+                if let Err(e) = r {
+                    fail!(i, "panic: polling a WithDispatch future", "{e}");
+                }
+                let logs = w.drain();
+                let ev: Vec<(u8, usize)> = logs.iter().map(|(c, calls)| (*c, calls.iter().filter(|x| x.kind == Kind::Event).count())).filter(|x| x.1 > 0).collect();
+                let want_ev: Vec<(u8, usize)> = want.map(|c| vec![(c, 1)]).unwrap_or_default();
+                if ev != want_ev {
+                    fail!(i, "emission inside a future polled with its own collector misrouted", "deliveries (collector,count) {ev:?}, expected {want_ev:?}; stacks {:?} global {:?}", w.stacks, w.global);
+                }
+                if w.global.is_none() {
+                    active_before_global[on] = true;
+                }
+                classes.push("future_polled_with_its_own_collector".into());
             }
             Op::EndThread { t } => {
                 let t = t as usize % NT;
@@ -464,7 +551,10 @@ fn run_case(case: &Case) -> Outcome {
                         // when no other thread holds a scope (with a scope open somewhere the
                         // dispatcher has to consult the dying thread's own state, which may be gone)
                         let logs = w.drain();
-                        if w.stacks.iter().all(|s| s.is_empty()) {
+                        // (a scope opened by the destructor itself may or may not take effect,
+                        // depending on which thread-local is destroyed first: not judged - what
+                        // is judged is that the other threads' scopes still work afterwards)
+                        if w.stacks.iter().all(|s| s.is_empty()) && !scoped_exit[t] {
                             let ev: Vec<(u8, usize)> = logs.iter().map(|(c, calls)| (*c, calls.iter().filter(|x| x.kind == Kind::Event).count())).filter(|x| x.1 > 0).collect();
                             let want_ev: Vec<(u8, usize)> = w.global.filter(|c| *c != 4).map(|c| vec![(c, 1)]).unwrap_or_default();
                             if ev != want_ev {
@@ -523,7 +613,8 @@ impl Property for C02 {
             1 => (t.clone(), 0u8..4).prop_map(|(t, cs)| Op::EmitPanic { t, cs }),
             2 => t.clone().prop_map(|t| Op::Query { t }),
             1 => t.clone().prop_map(|t| Op::EndThread { t }),
-            1 => t.prop_map(|t| Op::ArmExitEmit { t }),
+            1 => (t.clone(), proptest::option::weighted(0.5, c.clone())).prop_map(|(t, scope)| Op::ArmExitEmit { t, scope }),
+            2 => (t.clone(), proptest::option::weighted(0.6, c.clone()), t).prop_map(|(t, c, on)| Op::PollWith { t, c, on }),
         ];
         let max = tier.pick(24usize, 40usize);
         // half of the cases: plain op soup. other half: prefix (scopes/emits, no global) then a
